@@ -16,8 +16,44 @@ def close(a, b, rtol, atol):
     return a == b or abs(a - b) <= atol + rtol * max(abs(a), abs(b))
 
 
+def selection_search(res):
+    """name the option combination whose selected classes do not belong to one (problem, profile, geometry) triple
+    (evaluates SelectDefs.row_ok on the regenerated table; this is the concrete input when C19_selected_tuple_consistent breaks)"""
+    import re
+    rc, out, _ = C.sh('timeout 200 make -k gen/SelectGen.vo theories/SelectDefs.vo', cwd=C.COQ, timeout=230)
+    if rc != 0:
+        res.coverage['selection_table'] = 'generated table does not compile (translator T11 rejected the source)'
+        return
+    os.makedirs(C.WORK, exist_ok=True)
+    f = os.path.join(C.WORK, 'SelectSearch.v')
+    with open(f, 'w') as h:
+        h.write('From Coq Require Import List ZArith String.\nFrom GMGP Require Import SelectDefs.\nFrom GMGPGen Require Import SelectGen.\n'
+                'Eval vm_compute in (List.length gen_select_table, map (fun r => (fst r, snd r, expected (fst (fst (fst (fst r)))) (snd (fst (fst (fst r)))) '
+                '(snd (fst (fst r))) (snd (fst r)))) (filter (fun r => negb (row_ok r)) gen_select_table)).\n')
+    rc, out, _ = C.sh('timeout 120 coqc -Q theories GMGP -Q gen GMGPGen %s' % f, cwd=C.COQ, timeout=150)
+    flat = ' '.join(out.split())
+    m = re.search(r'=\s*\((\d+)(?:%nat)?,\s*(.*)$', flat)
+    rows = int(m.group(1)) if m else 0
+    bad = re.findall(r'\((-?\d+)%Z, (-?\d+)%Z, (-?\d+)%Z, (-?\d+)%Z, (?:Some|None)', m.group(2)) if m else []
+    res.coverage['selection_table'] = {'combinations': rows, 'inconsistent': len(bad)}
+    names = (('CIRCULAR', 'SHAFRANOV', 'CZARNY', 'CULHAM'), ('CARTESIAN_R2', 'CARTESIAN_R6', 'POLAR_R6', 'REFINED_RADIUS'),
+             ('POISSON', 'SONNENDRUCKER', 'ZONI', 'ZONI_SHIFTED'), ('ZERO', 'ALPHA_INVERSE'))
+    for g, p, a, b in bad[:2]:
+        g, p, a, b = int(g), int(p), int(a), int(b)
+        res.violation('selection:%d-%d-%d-%d' % (g, p, a, b), {
+            'what': 'GMGPolar::selectTestCase wires classes of different (problem, profile, geometry) triples together for this option '
+                    'combination (or passes the geometry parameters in another order): the source term is then not -div(alpha grad u) + beta u '
+                    'of the selected exact solution and coefficients',
+            'options': {'geometry': names[0][g] if 0 <= g < 4 else g, 'problem': names[1][p] if 0 <= p < 4 else p,
+                        'alpha_coeff': names[2][a] if 0 <= a < 4 else a, 'beta_coeff': names[3][b] if 0 <= b < 2 else b},
+            'replay_cmd': 'build/gmgpolar --geometry %d --problem %d --alpha_coeff %d --beta_coeff %d (error does not converge at order 2)' % (g, p, a, b),
+            'table_row_and_expected': flat[:1500]})
+
+
 def run(res, tier, seed):
     res.trusted_base += [
+        'translator T11 (translate/t11_select.py): GMGPolar::selectTestCase interpreted for all 128 combinations of the four option enumerations '
+        '(nested switch / make_unique / throw grammar) -> gen/SelectGen.v; the consistency theorem is over the regenerated table',
         'translator T7 (translate/t7_input_functions.py): the return expressions of the closed-form input-function classes as reified '
         'real expressions (decimal literals exact, M_PI = pi, sin_theta/cos_theta = sin/cos theta, factor_xi substituted, pow with '
         'integer / half-integer literal exponents); validated on every run against the compiled classes at sample points (K-inputfn)',
@@ -31,13 +67,14 @@ def run(res, tier, seed):
         'to ~1e-15 relative, not exactly), of Refined_* and of all Shafranov / Czarny classes (formula size) -- these are compared '
         'numerically with the symbolically differentiated operator at sample points; everything Culham (tabulated mapping)',
     ]
-    tr = C.run_translators(['t7_input_functions'])
+    tr = C.run_translators(['t7_input_functions', 't11_select'])
     for n, ok, msg in tr:
         res.obligation('translator:' + n, ok, msg[-300:])
         if not ok:
             res.fail('translator:' + n, msg)
     cr = C.coq_build('C19')
     res.add_coq(cr)
+    selection_search(res)
     okh, msgh = C.build_harness(['h_inputfn'])
     if not okh:
         res.fail('harness-build', msgh)
